@@ -24,11 +24,13 @@ theorem name_good (so : Nat) (localOff : UInt32) (len : UInt16) :
     PGood (P.restorePosition (do
       P.seekStart (so + localOff.toNat)
       let x ← P.countBytes len.toNat
-      P.lift (utf8 true x))) := by
+      P.lift (utf8 true x)
+      pure len.toNat)) := by
   apply PGood.restorePosition
   apply PGood.bind (PGood.seekStart _); intro _
   apply PGood.bind (PGood.countBytes (u16_le len)); intro x
-  exact PGood.lift (fun B _ => good_utf8 B x)
+  apply PGood.bind (PGood.lift (fun B _ => good_utf8 B x)); intro _
+  exact PGood.pure _
 
 theorem resourceParameter_good (so : Nat) : PGood (resourceParameter true so) := by
   unfold resourceParameter
